@@ -17,6 +17,7 @@ import re
 import sys
 import types
 import typing
+import typing_extensions
 import uuid
 import warnings
 
@@ -64,7 +65,7 @@ def table_facts(o, table):
     return out
 
 _SRC = '''
-import dataclasses, enum, typing, collections
+import dataclasses, enum, typing, collections, typing_extensions
 @dataclasses.dataclass
 class DC:
     a: int
@@ -81,6 +82,11 @@ class TD(typing.TypedDict):
     x: int
 class TDN(typing.TypedDict, total=False):
     x: int
+class TDExt(typing_extensions.TypedDict):
+    x: int
+    y: typing_extensions.NotRequired[str]
+class TDExtSub(TDExt, total=False):
+    z: float
 class TDMany(typing.TypedDict):
     zeta: int
     alpha: str
@@ -176,7 +182,7 @@ def catalogue():
         add(c.__name__, c)
     for n in ("DC", "FDC", "SDC", "NT", "CNT", "TD", "TDN", "Plain", "Empty", "Color", "Level", "Tag", "MyStr", "MyInt", "MyList", "MyDict",
               "MyDate", "MyTuple", "SubDC", "MyMapping", "MyIter", "Box", "Page", "IntPage", "TDReq", "TDInh", "GDC", "GFDC", "GNT",
-              "SubNT", "GList", "CallDC", "CallPlain", "TDMany"):
+              "SubNT", "GList", "CallDC", "CallPlain", "TDMany", "TDExt", "TDExtSub"):
         add(n, g[n])
     add("Page[int]", g["Page"][int]); add("GDC[int]", g["GDC"][int]); add("GNT[int]", g["GNT"][int]); add("GList[int]", g["GList"][int])
     add("generator", type(x for x in ()))
@@ -300,7 +306,7 @@ def facts(o):
          "unresolvable": o in (object, typing.Any, typing.Callable, cabc.Callable, ...) or org is cabc.Callable or org is type or o is type,
          "hasannotations": plain and bool(getattr(o, "__annotations__", False)),
          "subscripted": org is not None and bool(args),
-         "istypeddict": typing.is_typeddict(o), "hasfields": plain and hasattr(o, "_fields"),
+         "istypeddict": typing.is_typeddict(o) or typing_extensions.is_typeddict(o), "hasfields": plain and hasattr(o, "_fields"),
          "userclass": plain and getattr(o, "__module__", "") == "verif_catalogue" and not any(sub(o, b) for b in STDLIB_EXACT if b is not type(None)),
          "stdlibexact": plain and o in STDLIB_EXACT,
          "frozen": bool(getattr(getattr(o, "__dataclass_params__", None), "frozen", False)),
@@ -413,7 +419,7 @@ def run(ctx: Ctx) -> Outcome:
             meta.append({"p": "args", "obj": n, "exc": exc or ""})
         # origin() of a collection annotation is a concrete instantiable class of that kind
         r = resolve(o)
-        if r is not None and not typing.is_typeddict(r) and any(issubclass(r, k) for k in (list, set, frozenset, tuple, dict, collections.deque)):
+        if r is not None and not typing.is_typeddict(r) and not typing_extensions.is_typeddict(r) and any(issubclass(r, k) for k in (list, set, frozenset, tuple, dict, collections.deque)):
             a, exc = ask(inspection.origin, o)
             ok_cls = inspect.isclass(a)
             inst = False
@@ -525,6 +531,24 @@ def run(ctx: Ctx) -> Outcome:
             events.append({"ev": "accessor", "expect": show(bool(expect)), "got": "raised" if a == "raised" else show(bool(a)),
                            "again": "raised" if b == "raised" else show(bool(b))})
             meta.append({"p": fnname, "obj": "instance:" + n, "exc": exc or ""})
+    # the same questions about short-lived objects that cannot be weakly referenced (properties, instances of slotted classes,
+    # small tuples): made, asked about and dropped in turn -- CPython hands the address of a dead object to the next one
+    class _SlotDesc:
+        __slots__ = ("v",)
+        def __get__(self, o, t=None): return 1
+    class _SlotPlain:
+        __slots__ = ("v",)
+    makers = [("property", lambda: property(lambda self: 1), True), ("slotted_descriptor", _SlotDesc, True),
+              ("slotted_plain", _SlotPlain, False), ("tuple", lambda: (1, 2), False)]
+    for k in range(240):
+        n, mk, expect = makers[(k * 7 + k // 4) % len(makers)]
+        x = mk()
+        a, exc = ask(inspection.isdescriptor, x)
+        del x
+        if k < 8 or a != expect:
+            events.append({"ev": "accessor", "expect": show(bool(expect)), "got": "raised" if a == "raised" else show(bool(a)),
+                           "again": "raised" if a == "raised" else show(bool(a))})
+            meta.append({"p": "isdescriptor", "obj": f"short-lived:{n}#{k}", "exc": exc or ""})
     # signature helpers against inspect / typing
     def _f1(a, /, b: int, *c: str, d: float = 1.0, **e): pass
     def _f2(x: "int" = 3) -> str: return ""
